@@ -37,11 +37,18 @@ def run(chk, tier):
     chk.assumptions += ["definitions outside the witness corpus are covered by the structural rules only"]
 
 
+@cd.cross_check('R13.1', 'witnesses c13_bounds_attr, c13_bounds_with_where (R13.5)')
 def custom_bounds(chk, dprog, cfg):
     chk.rule("R13.1", "make_where_clause: with #[scale_info(bounds(..))] the function returns after extending the where clause with the custom "
              "predicates and `T: 'static` per type parameter — before any generated predicate (collect_types_to_bind, TypeInfo bounds) is pushed")
     b = dprog.body(dprog.fn("trait_bounds::make_where_clause"))
     bc = b.calls_to(cd.D + "attr::Attributes::bounds")
+    ext_any = [1 for p_ in cd.closure_tree(dprog, b.path) for _ in dprog.body(p_).calls_to(cd.D + "attr::BoundsAttr::extend_where_clause")]
+    if not b.calls_to(cd.D + "attr::BoundsAttr::extend_where_clause") and ext_any:
+        W13 = "witnesses c13_bounds_attr, c13_bounds_with_where and the negative c20_bounds_* (R13.5 / R20.4)"
+        chk.abstain("R13.1", "make_where_clause:custom-bounds-replace", b.where(), "the custom-bounds path lives in a helper of make_where_clause", cfg, decided_by=W13)
+        chk.abstain("R13.1", "make_where_clause:keeps-declared-where-clause", b.where(), "the custom-bounds path lives in a helper of make_where_clause", cfg, decided_by=W13)
+        return
     ok = False
     detail = "attrs.bounds() calls: %d" % len(bc)
     if len(bc) == 1:
@@ -101,6 +108,7 @@ def is_mir_ok_of(b, var):
             yield unref(a[3][0]) == var
 
 
+@cd.cross_check('R13.0', 'witness c13_skip_second_attr (R13.5) and corpus MultiAttr*')
 def attribute_lookup(chk, dprog, cfg):
     chk.rule("R13.0", "attribute lookup considers every attribute of the member: find_meta_item is `find_map` over all attributes of the namespace "
              "(an attribute standing second must still be seen)")
@@ -141,6 +149,10 @@ def selection(chk, dprog, cfg):
             continue
         n += 1
         ok, why = cd.is_skip_filter(dprog, consumer, body=b, site=ct)
+        if not ok and (cd.is_gathering(consumer) or (consumer is None and mir.unref(b.return_term()) == ct)):
+            chk.abstain("R13.2", "iteration:%s:%s" % (owner, elem.split("::")[-1]), b.where(bb), "the members are first gathered (%s); the selection happens on the gathered list" % (consumer[1]["name"].split("::")[-1] if consumer else "returned to a flat_map"), cfg,
+                        decided_by="witnesses c13_skip_member, c13_skip_second_attr (R13.5)")
+            continue
         key = "skip-filter-missing:%s" % owner.split("::")[2] if not ok and "collect_types_to_bind" in owner else "iteration:%s:%s" % (owner, elem.split("::")[-1])
         chk.expect(ok, "R13.2", key, b.where(bb), "%s over %s: %s" % (path_str(ct)[:60], elem.split("::")[-1], why), cfg)
     chk.floor("R13.2", n, 4, "member iteration sites counted on today's tree: 4")
@@ -255,6 +267,7 @@ def _run_with_opaque(b, env, h):
     return absint.run(b, 0, env, call=call)
 
 
+@cd.cross_check('R13.1b', 'witness c13_compact_and_plain (R13.5)')
 def compact_bound(chk, dprog, cfg):
     chk.rule("R13.1b", "a collected member type gets `T: HasCompact` exactly when the member is compact, else `T: TypeInfo + 'static`; the "
              "compact flag travels with each (type, flag) pair (no de-duplication by type alone)")
